@@ -147,11 +147,34 @@ func init() {
 						forms["absolute paths"] = []string{"-i", filepath.Join(abs, "gontainer.yaml"), "-i", filepath.Join(abs, "gontainer_*.yaml")}
 						forms["files are symbolic links"] = []string{"-i", filepath.Join(links, "gontainer.yaml"), "-i", filepath.Join(links, "gontainer_*.yaml")}
 						forms["directory is a symbolic link"] = []string{"-i", filepath.Join(dirlink, "gontainer.yaml"), "-i", filepath.Join(dirlink, "gontainer_*.yaml")}
+						hidden := filepath.Join(w.Dir, ".cache")
+						os.Remove(hidden)
+						os.Symlink(abs, hidden)
+						forms["below a hidden directory"] = []string{"-i", filepath.Join(hidden, "gontainer.yaml"), "-i", filepath.Join(hidden, "gontainer_*.yaml")}
+						forms["through a parent directory (..)"] = []string{"-i", abs + "/../gontainer/gontainer.yaml", "-i", abs + "/../gontainer/gontainer_*.yaml"}
+						forms["relative, through .. from a sibling directory"] = []string{"cwd=internal/cmd", "-i", "../gontainer/gontainer.yaml", "-i", "../gontainer/gontainer_*.yaml"}
+						// the environment is not an input of the self-compilation either
+						for ei, env := range [][]string{{"COLUMNS=0"}, {"COLUMNS=24", "LINES=5"}, {"COLUMNS=", "TERM=dumb"}, {"COLUMNS=wide", "NO_COLOR=1"}, {"COLUMNS=100000", "CLICOLOR_FORCE=1", "TZ=Asia/Tokyo", "LANG=tr_TR.UTF-8"}, {"HOME=/nonexistent", "TMPDIR=/nonexistent", "GOFLAGS=-mod=vendor", "GOOS=plan9"}} {
+							forms[fmt.Sprintf("environment %d %v", ei, env)] = append([]string{"env=" + strings.Join(env, "\x00")}, "-i", "internal/gontainer/gontainer.yaml", "-i", "internal/gontainer/gontainer_*.yaml")
+						}
 						for name, args := range forms {
+							cwd := tree
+							var extraEnv []string
+							for len(args) > 0 && (strings.HasPrefix(args[0], "cwd=") || strings.HasPrefix(args[0], "env=")) {
+								if strings.HasPrefix(args[0], "cwd=") {
+									cwd = filepath.Join(tree, strings.TrimPrefix(args[0], "cwd="))
+								} else {
+									extraEnv = strings.Split(strings.TrimPrefix(args[0], "env="), "\x00")
+								}
+								args = args[1:]
+							}
 							alt := filepath.Join(w.Dir, "alt.go")
 							os.Remove(alt)
 							run := exec.Command(bin, append(append([]string{"build"}, args...), "-o", alt)...)
-							run.Dir = tree
+							run.Dir = cwd
+							if extraEnv != nil {
+								run.Env = append([]string{"PATH=/usr/bin:/bin"}, extraEnv...)
+							}
 							b, err := run.CombinedOutput()
 							c.Count("generations")
 							c.Count("evaluations_extra")
